@@ -215,9 +215,23 @@ def op_auto(impl, mid, op, a):
         if k == 'not':
             r = ~s
         elif k == 'and':
-            r = s & o
+            if sum(map(ord, str(a[1]) + str(a[2]))) % 3 == 0:
+                # the augmented form, on a second name for the same object: `Function` defines no
+                # in-place operators, so this is `r = r & o` and the operand is left alone
+                r = s
+                r &= o
+                if r is s:
+                    raise RuntimeError('AUGMENTED-ASSIGNMENT-IN-PLACE')
+            else:
+                r = s & o
         elif k == 'or':
-            r = s | o
+            if sum(map(ord, str(a[1]) + str(a[2]))) % 3 == 0:
+                r = s
+                r |= o
+                if r is s:
+                    raise RuntimeError('AUGMENTED-ASSIGNMENT-IN-PLACE')
+            else:
+                r = s | o
         elif k == 'implies':
             r = s.implies(o)
         elif k == 'equiv':
